@@ -16,6 +16,7 @@ type Item struct {
 	Label  string
 	Config Config
 	Txns   []Txn
+	Repeat int // additional validator / gateway-load runs (Job.Repeat)
 }
 
 // steering headers of the Filters of a configuration
@@ -690,4 +691,34 @@ func (g *rgen) config(nprocMax int) Config {
 		}
 	}
 	return cf
+}
+
+// ---------------------------------------------------------------- family: layered DAGs
+
+// ladderConfig: a request direction of `depth` layers of two Filters, each
+// connected to both Filters of the next layer - on "hit" only (sameCond: every
+// path is followed when all hit; the cycle search, which keeps no set of
+// finished processors, follows every path as well) or on "hit" to the one and
+// "miss" to the other (a walk follows one path).  Acyclic, so accepted; the
+// number of paths is 2^depth.
+func ladderConfig(depth int, sameCond bool) Config {
+	f := FlowCfg{Name: "A", URL: mainURL, Res: []Conn{s2s()}}
+	name := func(l int, side string) string { return fmt.Sprintf("%s%d", side, l) }
+	f.Procs = append(f.Procs, filt("r"))
+	f.Req = append(f.Req, s2p("r"), p2p("r", "hit", name(0, "a")), p2p("r", "miss", name(0, "b")))
+	for l := 0; l < depth; l++ {
+		f.Procs = append(f.Procs, filt(name(l, "a")), filt(name(l, "b")))
+		for _, side := range []string{"a", "b"} {
+			if l+1 < depth {
+				other := "miss"
+				if sameCond {
+					other = "hit"
+				}
+				f.Req = append(f.Req, p2p(name(l, side), "hit", name(l+1, "a")), p2p(name(l, side), other, name(l+1, "b")))
+			} else {
+				f.Req = append(f.Req, p2s(name(l, side), "hit"))
+			}
+		}
+	}
+	return Config{Flows: []FlowCfg{f}}
 }
